@@ -59,6 +59,30 @@ macro_rules! extern_wasm {
     };
 }
 
+// Verification hook (off by default): on every target declare the canonical
+// built-ins as ordinary C symbols named by their wasm import name, so that a
+// native harness can link a mock component-model host in place of the
+// `unreachable!()` shims. Shadows the macro above for the rest of this module.
+#[cfg(bytecodealliance_wit_bindgen_verif)]
+macro_rules! extern_wasm {
+    (
+        $(#[$extern_attr:meta])*
+        unsafe extern "C" {
+            $(
+                $(#[$func_attr:meta])*
+                $vis:vis fn $func_name:ident ( $($args:tt)* ) $(-> $ret:ty)?;
+            )*
+        }
+    ) => {
+        unsafe extern "C" {
+            $(
+                $(#[$func_attr])*
+                $vis fn $func_name($($args)*) $(-> $ret)?;
+            )*
+        }
+    };
+}
+
 mod abi_buffer;
 mod cabi;
 mod error_context;
